@@ -33,8 +33,11 @@ theorem setupMedia_ok (cfg : Config) (ss : Session) (r : Request) (t : TrAlt) (h
       by_cases hc : ss.medias.contains i = true
       · rw [if_pos hc]; exact h
       · rw [if_neg hc]
-        obtain ⟨h1, h2, h3, h4, h5⟩ := h
-        rcases hst with hs | hs | hs <;> constructor <;> simp_all
+        by_cases hb : (ss.state == .initial && t.proto == .udp && r.portBusy) = true
+        · rw [if_pos hb]; exact h
+        · rw [if_neg hb]
+          obtain ⟨h1, h2, h3, h4, h5⟩ := h
+          rcases hst with hs | hs | hs <;> constructor <;> simp_all
 
 theorem sessInner_ok (cfg : Config) (ss : Session) (c : Nat) (r : Request) (h : SessOk ss) :
     SessOk (sessInner cfg ss c r).1 := by
@@ -88,7 +91,10 @@ theorem setupMedia_medias (cfg : Config) (ss : Session) (r : Request) (t : TrAlt
     · rw [if_neg hf] at h ⊢
       by_cases hc : ss.medias.contains i = true
       · rw [if_pos hc] at h; simp [bad] at h
-      · rw [if_neg hc]; simp
+      · rw [if_neg hc] at h ⊢
+        by_cases hb : (ss.state == .initial && t.proto == .udp && r.portBusy) = true
+        · rw [if_pos hb] at h; simp [bad] at h
+        · rw [if_neg hb]; simp
 
 theorem doSetup_medias (cfg : Config) (ss : Session) (r : Request) (h : (doSetup cfg ss r).2.status = 200) :
     (doSetup cfg ss r).1.medias.length = ss.medias.length + 1 := by
@@ -309,9 +315,10 @@ theorem AllOk.closeConn {srv : Server} (h : AllOk srv) (c : Nat) : AllOk (closeC
         · exact (h.withConns _).putSession (hs.withConns _)
 
 theorem AllOk.runInSession {srv : Server} (h : AllOk srv) (cfg : Config) (c : Nat) {ss : Session}
-    (hs : SessOk ss) (r : Request) : AllOk (runInSession cfg srv c ss r).1 := by
-  unfold Sess.runInSession
+    (hs : SessOk ss) (r0 : Request) : AllOk (runInSession cfg srv c ss r0).1 := by
+  unfold Sess.runInSession Sess.runInSessionWith
   dsimp only
+  generalize ({ r0 with portBusy := portBusy cfg srv ss r0 } : Request) = r
   have := sessHandle_ok cfg ss c r hs
   split
   · exact AllOk.endSession (srv := Sess.setConnSess (Sess.putSession srv _) c none) (h.putSession this) _
